@@ -434,6 +434,20 @@ pub fn generate_specs(prop: &dyn Prop, tier: Tier) -> Vec<(&'static str, Spec)> 
             if profile.name == "sink" {
                 crate::props::sink_adjust(&mut s, &mut r);
             }
+            if profile.name.starts_with("ctx") {
+                // a share of the context profiles gets a delimiter-list context (ten or more
+                // individually listed characters, optionally `| $`)
+                let t = sample(&oracle::gen::tape_strategy(24), &mut r);
+                if t.first().map(|x| x % 7 == 0).unwrap_or(false) {
+                    let many = oracle::gen::many_char_set(t.get(1..).unwrap_or(&[]), 10 + t.len() % 6);
+                    for rule in s.rules_mut() {
+                        if rule.ctx.is_some() {
+                            rule.ctx = Some(if t.len() % 2 == 0 { many.clone() } else { oracle::re::alt(many.clone(), oracle::re::Re::Eoi) });
+                            break;
+                        }
+                    }
+                }
+            }
             let s = prop.adjust_spec(s, &mut r);
             out.push((profile.name, s));
         }
